@@ -324,6 +324,14 @@ def run(prop, tier, seed):
     if prop == "C02":
         minimal = minimality(ctx, tier)
     tr = random_traces(ctx, prop, tier, seed)
+    drv = None
+    if prop == "C02":
+        # the unmodified driver's own refinement calls: every resulting mesh is a 1-irregular dyadic tiling
+        from .. import loop_lib
+        drv = loop_lib.driver_block(ctx, [("Dirichlet", "PiSquare", 0, "uniform", "sobolev", 0, 2),
+                                          ("MildSingular", "UnitSquare", 0, "anisotropic", "sobolev", 1, 2 if tier == "quick" else 3)],
+                                    {"uniform", "dorfler", "grade"}, C02_CLAUSES - {"dorfler-closure"})
+        ctx.log("driver %s" % drv)
     ctx.log("traces %s" % {k: v for k, v in tr.items() if k != "per_layout"})
     selftest = binding_selftest(ctx)
     ctx.cov = {
@@ -332,7 +340,7 @@ def run(prop, tier, seed):
         "samples": [{"exhaustive_layout": stats_a[0]}, {"random_trace_events": tr["samples"]}],
         "exhaustive": True,
         "minimality_models": minimal, "exhaustive_view": stats_a, "exhaustive_ordered": stats_b, "exhaustive_doerfler_actions": stats_c,
-        "random_traces": tr, "binding_selftest": selftest,
+        "random_traces": tr, "binding_selftest": selftest, "driver_runs": drv,
         "rule": "every state reachable within the stated primitive-bisection budget from each root layout "
                 "(operations: bisect time/space, both, uniform, uniform space), TLC graph == real-code graph; "
                 "plus random histories judged by TraceSTMesh",
